@@ -148,6 +148,7 @@ fn alpha_core(cfg: &Cfg) -> Vec<Op> {
         Op::text(&"w".repeat(cfg.cols + 1)),
         c(DecSet(vec![1047])),
         c(DecRst(vec![1047])),
+        c(Ris),
     ]
 }
 
@@ -179,12 +180,84 @@ fn alpha_wide(cfg: &Cfg) -> Vec<Op> {
     super::sweep::layered(super::sweep::wide_placements(cfg), super::sweep::wide_scroll_funcs(cfg))
 }
 
+/// "the alternate screen keeps none" whichever entry point delivers the input: the same
+/// scrolling alphabet through feed() per character and through feed_str, mixed; whenever
+/// the alternate screen is showing, lines() is exactly the visible rows - after EVERY op.
+pub struct FeedSys;
+impl crate::engine::System for FeedSys {
+    type St = (avt::Vt, bool);
+    fn init(&self, cfg: &Cfg) -> Self::St {
+        (cfg.build(), false)
+    }
+    fn step(&self, _cfg: &Cfg, st: &mut Self::St, op: &Op, out: Option<&mut crate::engine::Out>) {
+        let _ = apply(&mut st.0, op);
+        st.1 = st.0.verif_state().alternate_active;
+        if let Some(out) = out {
+            out.count("ops_checked");
+            let (rows, n) = (st.0.size().1, st.0.lines().len());
+            if st.1 {
+                out.count("ops_on_the_alternate_screen");
+                if n != rows {
+                    out.violate("C06", "alternate-screen-keeps-none", format!("after {}: lines() has {} rows while the alternate screen ({} rows) is showing", op.describe(), n, rows));
+                }
+            }
+            out.obs_hash = Some(n as u64);
+        }
+    }
+    fn key(&self, st: &Self::St) -> u128 {
+        crate::obs::fingerprint(&st.0)
+    }
+    fn has_state_hook(&self) -> bool {
+        false
+    }
+}
+
+fn alpha_feed(_cfg: &Cfg) -> Vec<Op> {
+    let base = vec![
+        c(DecSet(vec![1049])),
+        c(DecRst(vec![1049])),
+        c(DecSet(vec![47])),
+        c(Cup(None, None)),
+        c(Cup(Some(99), Some(1))),
+        c(Dl(None)),
+        c(Dl(Some(2))),
+        c(Il(None)),
+        c(Su(None)),
+        c(Lf),
+        c(Ri),
+        c(Decstbm(Some(2), Some(3))),
+        c(Decstbm(Some(1), Some(2))),
+        c(Decstbm(None, None)),
+        t("abc"),
+    ];
+    let mut v: Vec<Op> = base.iter().map(|o| o.clone().kind(Kind::FeedChars)).collect();
+    v.extend(base);
+    v
+}
+
+fn feed_part(tier: Tier) -> Part<'static, FeedSys> {
+    Part {
+        name: "alternate-screen-through-feed",
+        sys: &FeedSys,
+        cfgs: match tier {
+            Tier::Quick => cfgs(&[(2, 3)], &[None, Some(1)]),
+            Tier::Thorough => cfgs(&[(2, 3), (2, 4), (1, 2)], &[None, Some(0), Some(1)]),
+        },
+        alphabet: &alpha_feed,
+        depth: tier.pick(4, 5),
+        seconds: tier.pick(15.0, 1800.0),
+        validated: false,
+        nontrivial: Some("ops_on_the_alternate_screen"),
+    }
+}
+
 pub fn run(ctx: &Ctx) -> Report {
     let mut rep = Report::new();
     let p = parts!(ctx.tier, &SYS);
     run_part(ctx, &mut rep, &p);
     run_part(ctx, &mut rep, &medium_part(ctx.tier));
     run_part(ctx, &mut rep, &core_part(ctx.tier));
+    run_part(ctx, &mut rep, &feed_part(ctx.tier));
     run_part(ctx, &mut rep, &super::sweep::sweep_part("scroll-large-screen-parameter-sweep", &SYS_SWEEP, &alpha_sweep, ctx.tier));
     run_part(ctx, &mut rep, &super::sweep::wide_part("scroll-realistic-screen-parameter-sweep", &SYS_SWEEP, &alpha_wide, ctx.tier));
     rep.rule = "lock-step BFS of (real Vt, reference terminal) from a screen whose rows carry distinct content: LF/IND/NEL/RI, SU/SD/IL/DL x counts {default,1,2,h-1,h,h+1,65535}, valid and invalid DECSTBM pairs, wrap-causing text, with cursor placement on every row, coloured pen, alternate screen, resizes; after every transition all rows of lines() (screen and scrollback, cells) and the margins are compared".into();
@@ -194,6 +267,9 @@ pub fn run(ctx: &Ctx) -> Report {
 
 pub fn replay(ctx: &Ctx, v: &Value) -> bool {
     let tier = if v["tier"] == "thorough" { Tier::Thorough } else { Tier::Quick };
+    if v["part"] == "alternate-screen-through-feed" {
+        return replay_part(ctx, &feed_part(tier), v);
+    }
     if v["part"] == "scroll-core-deep" {
         return replay_part(ctx, &core_part(tier), v);
     }
